@@ -116,7 +116,7 @@ func (s *sim) coinRisk(a Action) bool {
 			return true
 		}
 		return in != nil && !in.proxyEnded && linesWaiting
-	case "start_in", "start_io":
+	case "start_in", "start_io", "burst_io":
 		return s.shutdown && s.cfg.DeriveCtx && !s.shutDone
 	}
 	return false
